@@ -17,7 +17,7 @@ use automerge::{
 use serde_json::json;
 use unicode_segmentation::UnicodeSegmentation;
 
-const HEADER: &str = "From AM Require Import Base.Prelude Base.Order Crdt.Types Crdt.Interp Crdt.Local Crdt.Migrate Crdt.Update Exec.EditExec Exec.ReconExec.\nLocal Open Scope N_scope.\n";
+const HEADER: &str = "From AM Require Import Base.Prelude Base.Order Crdt.Types Crdt.Interp Crdt.Local Crdt.Migrate Crdt.Update Crdt.Render Exec.EditExec Exec.ReconExec.\nLocal Open Scope N_scope.\n";
 
 // ------------------------------------------------------------------ shared helpers
 pub fn enc_width(enc: TextEncoding, s: &str) -> usize {
@@ -1411,6 +1411,561 @@ fn upd_spans_case(rng: &mut Rng, rep: &mut Report, pi: usize, enc: TextEncoding)
     }
 }
 
+// ------------------------------------------------------------------ C32: serde export
+mod tser {
+    // a serde Serializer that records what it is given as a tree and checks every announced length
+    use serde::ser::{self, Serialize};
+    use std::cell::RefCell;
+
+    #[derive(Debug, Clone, PartialEq)]
+    pub enum T {
+        Null,
+        Bool(bool),
+        I64(i64),
+        U64(u64),
+        F64(u64),
+        Str(String),
+        Seq(Option<usize>, Vec<T>),
+        Map(Option<usize>, Vec<(T, T)>),
+        Struct(Vec<(String, T)>),
+        Other(String),
+    }
+
+    thread_local! {
+        pub static LEN_VIOLATIONS: RefCell<Vec<String>> = RefCell::new(vec![]);
+        pub static ANNOUNCED: RefCell<(u64, u64)> = RefCell::new((0, 0)); // (containers with Some(len), with None)
+    }
+    fn note(announced: Option<usize>) {
+        ANNOUNCED.with(|a| {
+            let mut a = a.borrow_mut();
+            if announced.is_some() {
+                a.0 += 1
+            } else {
+                a.1 += 1
+            }
+        });
+    }
+    fn check(kind: &str, announced: Option<usize>, got: usize) {
+        if let Some(n) = announced {
+            if n != got {
+                LEN_VIOLATIONS.with(|v| v.borrow_mut().push(format!("{} announced {} entries, received {}", kind, n, got)));
+            }
+        }
+    }
+
+    #[derive(Debug)]
+    pub struct E(pub String);
+    impl std::fmt::Display for E {
+        fn fmt(&self, f: &mut std::fmt::Formatter<'_>) -> std::fmt::Result {
+            write!(f, "{}", self.0)
+        }
+    }
+    impl std::error::Error for E {}
+    impl ser::Error for E {
+        fn custom<M: std::fmt::Display>(m: M) -> Self {
+            E(m.to_string())
+        }
+    }
+
+    pub struct S;
+    pub struct SeqS(Option<usize>, Vec<T>, &'static str);
+    pub struct MapS(Option<usize>, Vec<(T, T)>, Option<T>);
+    pub struct StructS(usize, Vec<(String, T)>);
+
+    pub fn to_tree<V: Serialize + ?Sized>(v: &V) -> Result<T, E> {
+        v.serialize(S)
+    }
+
+    impl ser::Serializer for S {
+        type Ok = T;
+        type Error = E;
+        type SerializeSeq = SeqS;
+        type SerializeTuple = SeqS;
+        type SerializeTupleStruct = SeqS;
+        type SerializeTupleVariant = SeqS;
+        type SerializeMap = MapS;
+        type SerializeStruct = StructS;
+        type SerializeStructVariant = StructS;
+        fn serialize_bool(self, v: bool) -> Result<T, E> { Ok(T::Bool(v)) }
+        fn serialize_i8(self, v: i8) -> Result<T, E> { Ok(T::I64(v as i64)) }
+        fn serialize_i16(self, v: i16) -> Result<T, E> { Ok(T::I64(v as i64)) }
+        fn serialize_i32(self, v: i32) -> Result<T, E> { Ok(T::I64(v as i64)) }
+        fn serialize_i64(self, v: i64) -> Result<T, E> { Ok(T::I64(v)) }
+        fn serialize_u8(self, v: u8) -> Result<T, E> { Ok(T::U64(v as u64)) }
+        fn serialize_u16(self, v: u16) -> Result<T, E> { Ok(T::U64(v as u64)) }
+        fn serialize_u32(self, v: u32) -> Result<T, E> { Ok(T::U64(v as u64)) }
+        fn serialize_u64(self, v: u64) -> Result<T, E> { Ok(T::U64(v)) }
+        fn serialize_f32(self, v: f32) -> Result<T, E> { Ok(T::F64((v as f64).to_bits())) }
+        fn serialize_f64(self, v: f64) -> Result<T, E> { Ok(T::F64(v.to_bits())) }
+        fn serialize_char(self, v: char) -> Result<T, E> { Ok(T::Str(v.to_string())) }
+        fn serialize_str(self, v: &str) -> Result<T, E> { Ok(T::Str(v.to_string())) }
+        fn serialize_bytes(self, v: &[u8]) -> Result<T, E> { Ok(T::Seq(Some(v.len()), v.iter().map(|b| T::U64(*b as u64)).collect())) }
+        fn serialize_none(self) -> Result<T, E> { Ok(T::Null) }
+        fn serialize_some<V: Serialize + ?Sized>(self, v: &V) -> Result<T, E> { v.serialize(S) }
+        fn serialize_unit(self) -> Result<T, E> { Ok(T::Null) }
+        fn serialize_unit_struct(self, _n: &'static str) -> Result<T, E> { Ok(T::Null) }
+        fn serialize_unit_variant(self, _n: &'static str, _i: u32, v: &'static str) -> Result<T, E> { Ok(T::Other(format!("unit-variant {}", v))) }
+        fn serialize_newtype_struct<V: Serialize + ?Sized>(self, _n: &'static str, v: &V) -> Result<T, E> { v.serialize(S) }
+        fn serialize_newtype_variant<V: Serialize + ?Sized>(self, _n: &'static str, _i: u32, var: &'static str, v: &V) -> Result<T, E> {
+            Ok(T::Struct(vec![(var.to_string(), v.serialize(S)?)]))
+        }
+        fn serialize_seq(self, len: Option<usize>) -> Result<SeqS, E> { note(len); Ok(SeqS(len, vec![], "sequence")) }
+        fn serialize_tuple(self, len: usize) -> Result<SeqS, E> { Ok(SeqS(Some(len), vec![], "tuple")) }
+        fn serialize_tuple_struct(self, _n: &'static str, len: usize) -> Result<SeqS, E> { Ok(SeqS(Some(len), vec![], "tuple struct")) }
+        fn serialize_tuple_variant(self, _n: &'static str, _i: u32, _v: &'static str, len: usize) -> Result<SeqS, E> { Ok(SeqS(Some(len), vec![], "tuple variant")) }
+        fn serialize_map(self, len: Option<usize>) -> Result<MapS, E> { note(len); Ok(MapS(len, vec![], None)) }
+        fn serialize_struct(self, _n: &'static str, len: usize) -> Result<StructS, E> { Ok(StructS(len, vec![])) }
+        fn serialize_struct_variant(self, _n: &'static str, _i: u32, _v: &'static str, len: usize) -> Result<StructS, E> { Ok(StructS(len, vec![])) }
+    }
+    impl ser::SerializeSeq for SeqS {
+        type Ok = T;
+        type Error = E;
+        fn serialize_element<V: Serialize + ?Sized>(&mut self, v: &V) -> Result<(), E> { self.1.push(v.serialize(S)?); Ok(()) }
+        fn end(self) -> Result<T, E> { check(self.2, self.0, self.1.len()); Ok(T::Seq(self.0, self.1)) }
+    }
+    impl ser::SerializeTuple for SeqS {
+        type Ok = T;
+        type Error = E;
+        fn serialize_element<V: Serialize + ?Sized>(&mut self, v: &V) -> Result<(), E> { self.1.push(v.serialize(S)?); Ok(()) }
+        fn end(self) -> Result<T, E> { check(self.2, self.0, self.1.len()); Ok(T::Seq(self.0, self.1)) }
+    }
+    impl ser::SerializeTupleStruct for SeqS {
+        type Ok = T;
+        type Error = E;
+        fn serialize_field<V: Serialize + ?Sized>(&mut self, v: &V) -> Result<(), E> { self.1.push(v.serialize(S)?); Ok(()) }
+        fn end(self) -> Result<T, E> { check(self.2, self.0, self.1.len()); Ok(T::Seq(self.0, self.1)) }
+    }
+    impl ser::SerializeTupleVariant for SeqS {
+        type Ok = T;
+        type Error = E;
+        fn serialize_field<V: Serialize + ?Sized>(&mut self, v: &V) -> Result<(), E> { self.1.push(v.serialize(S)?); Ok(()) }
+        fn end(self) -> Result<T, E> { check(self.2, self.0, self.1.len()); Ok(T::Seq(self.0, self.1)) }
+    }
+    impl ser::SerializeMap for MapS {
+        type Ok = T;
+        type Error = E;
+        fn serialize_key<V: Serialize + ?Sized>(&mut self, k: &V) -> Result<(), E> { self.2 = Some(k.serialize(S)?); Ok(()) }
+        fn serialize_value<V: Serialize + ?Sized>(&mut self, v: &V) -> Result<(), E> {
+            let k = self.2.take().ok_or_else(|| E("value without key".into()))?;
+            self.1.push((k, v.serialize(S)?));
+            Ok(())
+        }
+        fn end(self) -> Result<T, E> { check("map", self.0, self.1.len()); Ok(T::Map(self.0, self.1)) }
+    }
+    impl ser::SerializeStruct for StructS {
+        type Ok = T;
+        type Error = E;
+        fn serialize_field<V: Serialize + ?Sized>(&mut self, k: &'static str, v: &V) -> Result<(), E> { self.1.push((k.to_string(), v.serialize(S)?)); Ok(()) }
+        fn end(self) -> Result<T, E> { check("struct", Some(self.0), self.1.len()); Ok(T::Struct(self.1)) }
+    }
+    impl ser::SerializeStructVariant for StructS {
+        type Ok = T;
+        type Error = E;
+        fn serialize_field<V: Serialize + ?Sized>(&mut self, k: &'static str, v: &V) -> Result<(), E> { self.1.push((k.to_string(), v.serialize(S)?)); Ok(()) }
+        fn end(self) -> Result<T, E> { check("struct", Some(self.0), self.1.len()); Ok(T::Struct(self.1)) }
+    }
+}
+use tser::T;
+
+/// the current state as the tree the export has to produce: winners only (greatest op id), text as a string,
+/// counters and timestamps as integers, bytes as a sequence of numbers
+fn expected_tree<D: ReadDoc>(doc: &D, obj: &ObjId, ty: ObjType, depth: usize) -> Result<T, String> {
+    if depth > 40 {
+        return Err("too deep".into());
+    }
+    let val = |v: &Value<'_>, id: &ObjId| -> Result<T, String> {
+        match v {
+            Value::Object(t) => expected_tree(doc, id, *t, depth + 1),
+            Value::Scalar(s) => Ok(match s.as_ref() {
+                ScalarValue::Null => T::Null,
+                ScalarValue::Boolean(b) => T::Bool(*b),
+                ScalarValue::Int(i) => T::I64(*i),
+                ScalarValue::Uint(u) => T::U64(*u),
+                ScalarValue::F64(f) => T::F64(f.to_bits()),
+                ScalarValue::Str(s) => T::Str(s.to_string()),
+                ScalarValue::Bytes(b) => T::Seq(Some(b.len()), b.iter().map(|x| T::U64(*x as u64)).collect()),
+                ScalarValue::Counter(c) => T::I64(i64::from(c)),
+                ScalarValue::Timestamp(t) => T::I64(*t),
+                ScalarValue::Unknown { type_code, bytes } => T::Struct(vec![
+                    ("type_code".into(), T::U64(*type_code as u64)),
+                    ("bytes".into(), T::Seq(Some(bytes.len()), bytes.iter().map(|x| T::U64(*x as u64)).collect())),
+                ]),
+            }),
+        }
+    };
+    match ty {
+        ObjType::Text => doc.text(obj).map(T::Str).map_err(|e| e.to_string()),
+        ObjType::List => {
+            let mut items = vec![];
+            for i in 0..doc.length(obj) {
+                let vals = doc.get_all(obj, i).map_err(|e| e.to_string())?;
+                let (v, id) = vals.iter().max_by_key(|x| exid_key(&x.1)).ok_or("empty register below length")?;
+                items.push(val(v, id)?);
+            }
+            Ok(T::Seq(None, items))
+        }
+        ObjType::Map | ObjType::Table => {
+            let mut ents = vec![];
+            for k in doc.keys(obj) {
+                let vals = doc.get_all(obj, k.as_str()).map_err(|e| e.to_string())?;
+                let (v, id) = vals.iter().max_by_key(|x| exid_key(&x.1)).ok_or("key without value")?;
+                ents.push((T::Str(k.clone()), val(v, id)?));
+            }
+            Ok(T::Map(Some(ents.len()), ents))
+        }
+    }
+}
+
+fn coq_jt(t: &T) -> Option<String> {
+    let ann = |a: &Option<usize>| match a {
+        Some(n) => format!("(Some {}%nat)", n),
+        None => "None".to_string(),
+    };
+    Some(match t {
+        T::Null => "JNull".into(),
+        T::Bool(b) => format!("(JBool {})", coq_bool(*b)),
+        T::I64(i) => format!("(JI64 {})", coq_z(*i as i128)),
+        T::U64(u) => format!("(JU64 {})", u),
+        T::F64(b) => format!("(JF64 {})", b),
+        T::Str(s) => format!("(JStr {})", coq_str(s)),
+        T::Seq(a, v) => format!("(JSeq {} {})", ann(a), coq_list(&v.iter().map(coq_jt).collect::<Option<Vec<_>>>()?)),
+        T::Map(a, m) => {
+            let mut items = vec![];
+            for (k, v) in m {
+                match k {
+                    T::Str(k) => items.push(format!("({},{})", coq_str(k), coq_jt(v)?)),
+                    _ => return None,
+                }
+            }
+            format!("(JMap {} {})", ann(a), coq_list(&items))
+        }
+        T::Struct(f) => match f.as_slice() {
+            [(a, T::U64(t)), (b, T::Seq(_, bytes))] if a == "type_code" && b == "bytes" => {
+                let bs: Option<Vec<u128>> = bytes.iter().map(|x| match x { T::U64(u) => Some(*u as u128), _ => None }).collect();
+                format!("(JUnknown {} {})", t, coq_nlist(bs?))
+            }
+            _ => return None,
+        },
+        T::Other(_) => return None,
+    })
+}
+
+fn tree_to_json(t: &T) -> serde_json::Value {
+    match t {
+        T::Null => serde_json::Value::Null,
+        T::Bool(b) => json!(b),
+        T::I64(i) => json!(i),
+        T::U64(u) => json!(u),
+        T::F64(b) => serde_json::Number::from_f64(f64::from_bits(*b)).map(serde_json::Value::Number).unwrap_or(serde_json::Value::Null),
+        T::Str(s) => json!(s),
+        T::Seq(_, v) => serde_json::Value::Array(v.iter().map(tree_to_json).collect()),
+        T::Map(_, m) => serde_json::Value::Object(m.iter().map(|(k, v)| (match k { T::Str(s) => s.clone(), o => format!("{:?}", o) }, tree_to_json(v))).collect()),
+        T::Struct(m) => serde_json::Value::Object(m.iter().map(|(k, v)| (k.clone(), tree_to_json(v))).collect()),
+        T::Other(s) => json!(s),
+    }
+}
+
+/// JSON values compared by kind and value (floats by bit pattern)
+fn json_same(a: &serde_json::Value, b: &serde_json::Value) -> bool {
+    use serde_json::Value as J;
+    match (a, b) {
+        (J::Null, J::Null) => true,
+        (J::Bool(x), J::Bool(y)) => x == y,
+        (J::String(x), J::String(y)) => x == y,
+        (J::Number(x), J::Number(y)) => {
+            if x.is_i64() || y.is_i64() {
+                x.is_i64() && y.is_i64() && x.as_i64() == y.as_i64()
+            } else if x.is_u64() || y.is_u64() {
+                x.is_u64() && y.is_u64() && x.as_u64() == y.as_u64()
+            } else {
+                x.as_f64().map(f64::to_bits) == y.as_f64().map(f64::to_bits)
+            }
+        }
+        (J::Array(x), J::Array(y)) => x.len() == y.len() && x.iter().zip(y.iter()).all(|(p, q)| json_same(p, q)),
+        (J::Object(x), J::Object(y)) => x.len() == y.len() && x.iter().all(|(k, v)| y.get(k).map(|w| json_same(v, w)).unwrap_or(false)),
+        _ => false,
+    }
+}
+
+fn serde_case(rng: &mut Rng, rep: &mut Report, cw: &mut CaseWriter, grp: &mut Group, model: bool, pi: usize, enc: TextEncoding, thorough: bool) {
+    // the string-heavy multi-replica documents of the migration stream, plus values of every scalar kind
+    let d = mig_document(rng, enc, thorough, false);
+    let mut doc = match load_plain(&d.bytes, enc) {
+        Ok(x) => x,
+        Err(_) => return,
+    };
+    {
+        let mut tx = doc.transaction();
+        let m = tx.put_object(ROOT, "kinds", ObjType::Map).unwrap();
+        for (i, v) in [
+            ScalarValue::Bytes(rng.bytes(3)), ScalarValue::counter(7), ScalarValue::Timestamp(-5), ScalarValue::Uint(u64::MAX),
+            ScalarValue::Int(i64::MIN), ScalarValue::F64(f64::from_bits(0x400921fb54442d18)), ScalarValue::Null, ScalarValue::Boolean(true),
+        ].into_iter().enumerate() {
+            tx.put(&m, format!("k{}", i), v).unwrap();
+        }
+        let l = tx.put_object(&m, "nested", ObjType::List).unwrap();
+        let inner = tx.insert_object(&l, 0, ObjType::Map).unwrap();
+        tx.put(&inner, "deep", "x").unwrap();
+        tx.insert(&l, 1, ScalarValue::Bytes(vec![])).unwrap();
+        tx.commit();
+    }
+    let replay = json!({"stream": "serde", "program": pi, "encoding": enc_name(enc), "log": d.log, "doc_hex": hex(&doc.save())});
+    rep.count("serde:documents");
+    let want = match expected_tree(&doc, &ROOT, ObjType::Map, 0) {
+        Ok(t) => t,
+        Err(e) => {
+            rep.fail(&["C32"], "recon|serde|read-failed", &e, replay);
+            return;
+        }
+    };
+    tser::LEN_VIOLATIONS.with(|v| v.borrow_mut().clear());
+    let got = match guard(|| tser::to_tree(&automerge::AutoSerde::from(&doc))) {
+        Ok(Ok(t)) => t,
+        Ok(Err(e)) => {
+            rep.fail(&["C32"], "recon|serde|serialize-error", &e.0, replay);
+            return;
+        }
+        Err(p) => {
+            rep.fail(&["C32", "C37"], &format!("panic|recon|serde|{}", p.signature()), &format!("serializing AutoSerde panicked: {} at {}", p.message, p.location), replay);
+            return;
+        }
+    };
+    let viol: Vec<String> = tser::LEN_VIOLATIONS.with(|v| v.borrow().clone());
+    if !viol.is_empty() {
+        rep.fail(&["C32"], "recon|serde|announced-length", &format!("a container announced a wrong length: {}", viol.join("; ")), replay.clone());
+    }
+    if got != want {
+        rep.fail(&["C32"], "recon|serde|tree-differs", &format!("AutoSerde produced {:?} , the current state is {:?}", got, want).chars().take(1500).collect::<String>(), replay.clone());
+    }
+    match guard(|| serde_json::to_value(automerge::AutoSerde::from(&doc))) {
+        Ok(Ok(j)) => {
+            if !json_same(&j, &tree_to_json(&want)) {
+                rep.fail(&["C32"], "recon|serde|json-differs", &format!("serde_json export {} , expected {}", j, tree_to_json(&want)).chars().take(1500).collect::<String>(), replay.clone());
+            }
+        }
+        Ok(Err(e)) => rep.fail(&["C32"], "recon|serde|json-error", &e.to_string(), replay.clone()),
+        Err(p) => rep.fail(&["C32", "C37"], &format!("panic|recon|serde|json|{}", p.signature()), &p.message, replay.clone()),
+    }
+    // the same through AutoCommit (another ReadDoc)
+    {
+        let ac = AutoCommit::load_with_options(&doc.save(), LoadOptions::new().text_encoding(enc));
+        if let Ok(ac) = ac {
+            if let Ok(Ok(t)) = guard(|| tser::to_tree(&automerge::AutoSerde::from(&ac))) {
+                if t != want {
+                    rep.fail(&["C32"], "recon|serde|autocommit-differs", "AutoSerde over AutoCommit differs from the current state", replay.clone());
+                }
+            }
+        }
+    }
+    fn count(t: &T, maps: &mut u64, seqs: &mut u64) {
+        match t {
+            T::Map(_, m) => {
+                *maps += 1;
+                m.iter().for_each(|(_, v)| count(v, maps, seqs))
+            }
+            T::Seq(_, s) => {
+                *seqs += 1;
+                s.iter().for_each(|v| count(v, maps, seqs))
+            }
+            T::Struct(m) => m.iter().for_each(|(_, v)| count(v, maps, seqs)),
+            _ => {}
+        }
+    }
+    let (mut m, mut q) = (0, 0);
+    count(&want, &mut m, &mut q);
+    rep.add("serde:maps", m);
+    rep.add("serde:sequences", q);
+    rep.case(if m >= 3 { Some(fnv(format!("{:?}", want).as_bytes())) } else { None });
+    if pi < 1 {
+        rep.sample(json!({"stream": "serde", "tree": format!("{:?}", want).chars().take(400).collect::<String>()}));
+    }
+    // model case: the tree the serializer received against the model's rendering of the document's ops
+    if model {
+        if let Some(lit) = coq_jt(&got) {
+            let changes = doc.get_changes(&[]);
+            let mut defs = vec![];
+            let mut names = vec![];
+            for (i, c) in changes.iter().enumerate() {
+                defs.push(format!("Definition s{}_ch{} : change := {}.", pi, i, coq_change_small(c, i)));
+                names.push(format!("s{}_ch{}", pi, i));
+            }
+            let term = format!("chk_render {} {}", coq_list(&names), lit);
+            grp.add(cw, defs, vec![(term, json!({"kind": "render", "props": ["C32"], "program": pi, "log": replay["log"], "doc_hex": replay["doc_hex"]}))]);
+            rep.model_cases += 1;
+        }
+    }
+}
+
+// ------------------------------------------------------------------ C33: CLI JSON import / export
+fn cli_binary(rep: &mut Report) -> Option<std::path::PathBuf> {
+    // $W/target/debug/amv -> $W/target/cli
+    let exe = std::env::current_exe().ok()?;
+    let target = exe.parent()?.parent()?.to_path_buf();
+    let dir = target.join("cli");
+    let out = std::process::Command::new("cargo")
+        .args(["build", "--offline", "-p", "automerge-cli", "--manifest-path", "/repo/rust/Cargo.toml", "--target-dir"])
+        .arg(&dir)
+        .env("CARGO_NET_OFFLINE", "true")
+        .env_remove("RUSTFLAGS")
+        .env_remove("CARGO_TARGET_DIR")
+        .output();
+    let bin = dir.join("debug").join("automerge");
+    match out {
+        Ok(o) if o.status.success() && bin.exists() => Some(bin),
+        Ok(o) => {
+            rep.fail(&["C33"], "recon|cli|build-failed", &String::from_utf8_lossy(&o.stderr).chars().rev().take(600).collect::<String>().chars().rev().collect::<String>(), json!({}));
+            None
+        }
+        Err(e) => {
+            rep.fail(&["C33"], "recon|cli|build-failed", &e.to_string(), json!({}));
+            None
+        }
+    }
+}
+
+fn run_cli(bin: &std::path::Path, cmd: &str, input: &[u8]) -> Result<Vec<u8>, String> {
+    use std::io::Write;
+    let mut child = std::process::Command::new(bin)
+        .arg(cmd)
+        .stdin(std::process::Stdio::piped())
+        .stdout(std::process::Stdio::piped())
+        .stderr(std::process::Stdio::piped())
+        .spawn()
+        .map_err(|e| e.to_string())?;
+    {
+        let mut stdin = child.stdin.take().ok_or("no stdin")?;
+        stdin.write_all(input).map_err(|e| e.to_string())?;
+    }
+    let out = child.wait_with_output().map_err(|e| e.to_string())?;
+    if !out.status.success() {
+        let err = String::from_utf8_lossy(&out.stderr);
+        let line = err.lines().find(|l| l.contains("panicked") || l.contains("Error")).unwrap_or("").to_string();
+        return Err(format!("`automerge {}` exited with {:?}: {}", cmd, out.status.code(), line.chars().take(300).collect::<String>()));
+    }
+    Ok(out.stdout)
+}
+
+const JSTRS: [&str; 10] = ["", "x", "hello world", "\u{e9}", "\u{6f22}\u{5b57}", "\u{1F600}", "e\u{301}", "quote\" back\\ slash/ \n\t", "\u{0}\u{1f}", "a\u{1F468}\u{200D}\u{1F469}b"];
+
+fn gen_number(rng: &mut Rng) -> (serde_json::Value, &'static str) {
+    match rng.below(10) {
+        0 => (json!(*rng.pick(&[0i64, 1, -1, 42, i64::MAX, i64::MIN, i64::MAX - 1, i64::MIN + 1, 1 << 53, -(1 << 53)])), "i64-edge"),
+        1 => (json!(rng.next() as i64), "i64-random"),
+        2 => (json!(*rng.pick(&[u64::MAX, u64::MAX - 1, (i64::MAX as u64) + 1, 1u64 << 63])), "u64-above-i64"),
+        3 => (json!(rng.next() | (1u64 << 63)), "u64-above-i64"),
+        4 | 5 | 6 => loop {
+            let f = f64::from_bits(rng.next());
+            if f.is_finite() {
+                break (json!(f), "f64-random-bits");
+            }
+        },
+        7 => (json!(*rng.pick(&[0.0f64, -0.0, 1.5, 0.1, 1e300, 5e-324, f64::MAX, f64::MIN_POSITIVE, 1e22, 1e23, 9007199254740993.0, 0.3])), "f64-edge"),
+        8 => (json!((rng.below(2000) as f64 - 1000.0) / 8.0), "f64-small"),
+        _ => (json!(rng.below(100) as i64 - 50), "i64-small"),
+    }
+}
+
+fn gen_json(rng: &mut Rng, depth: usize, rep: &mut Report) -> serde_json::Value {
+    let k = if depth == 0 { rng.below(5) } else { rng.below(9) };
+    match k {
+        0 => serde_json::Value::Null,
+        1 => json!(rng.chance(1, 2)),
+        2 | 3 => {
+            let (v, kind) = gen_number(rng);
+            rep.count(&format!("cli:number:{}", kind));
+            v
+        }
+        4 => json!(*rng.pick(&JSTRS)),
+        5 | 6 => {
+            let n = rng.below(4);
+            serde_json::Value::Array((0..n).map(|_| gen_json(rng, depth - 1, rep)).collect())
+        }
+        _ => gen_json_obj(rng, depth - 1, rep),
+    }
+}
+
+fn gen_json_obj(rng: &mut Rng, depth: usize, rep: &mut Report) -> serde_json::Value {
+    let n = rng.below(5);
+    let mut m = serde_json::Map::new();
+    for _ in 0..n {
+        let key = match rng.below(8) {
+            0 => rng.pick(&JSTRS).to_string(),
+            _ => rng.pick(&gen::KEYS).to_string(),
+        };
+        m.insert(key, gen_json(rng, depth, rep));
+    }
+    serde_json::Value::Object(m)
+}
+
+fn cli_stream(rng: &mut Rng, rep: &mut Report, thorough: bool) {
+    let bin = match cli_binary(rep) {
+        Some(b) => b,
+        None => return,
+    };
+    let n = if thorough { 500 } else { 80 };
+    for pi in 0..n {
+        let j = gen_json_obj(rng, 4, rep);
+        let text = serde_json::to_string(&j).unwrap();
+        let replay = json!({"stream": "cli", "program": pi, "json": text});
+        rep.count("cli:documents");
+        let bytes = match run_cli(&bin, "import", text.as_bytes()) {
+            Ok(b) => b,
+            Err(e) => {
+                rep.fail(&["C33"], &format!("recon|cli|import-failed|{}", if e.contains("panicked") { "panic" } else { "error" }), &e, replay);
+                continue;
+            }
+        };
+        let out = match run_cli(&bin, "export", &bytes) {
+            Ok(b) => b,
+            Err(e) => {
+                rep.fail(&["C33"], &format!("recon|cli|export-failed|{}", if e.contains("panicked") { "panic" } else { "error" }), &e, replay);
+                continue;
+            }
+        };
+        let back: serde_json::Value = match serde_json::from_slice(&out) {
+            Ok(v) => v,
+            Err(e) => {
+                rep.fail(&["C33"], "recon|cli|export-not-json", &e.to_string(), replay);
+                continue;
+            }
+        };
+        if !json_same(&j, &back) {
+            // what kind of value differs
+            fn first_diff(a: &serde_json::Value, b: &serde_json::Value, path: String) -> Option<(String, String)> {
+                use serde_json::Value as J;
+                match (a, b) {
+                    (J::Array(x), J::Array(y)) if x.len() == y.len() => x.iter().zip(y.iter()).enumerate().find_map(|(i, (p, q))| first_diff(p, q, format!("{}[{}]", path, i))),
+                    (J::Object(x), J::Object(y)) if x.len() == y.len() && x.keys().all(|k| y.contains_key(k)) => x.iter().find_map(|(k, v)| first_diff(v, &y[k], format!("{}.{:?}", path, k))),
+                    _ if json_same(a, b) => None,
+                    (J::Number(x), J::Number(_)) => Some((if x.is_f64() { "float".into() } else { "integer".into() }, format!("{}: {} -> {}", path, a, b))),
+                    _ => Some(("structure".into(), format!("{}: {} -> {}", path, a, b).chars().take(300).collect())),
+                }
+            }
+            let (kind, what) = first_diff(&j, &back, "$".into()).unwrap_or(("?".into(), "?".into()));
+            rep.fail(&["C33"], &format!("recon|cli|roundtrip-differs|{}", kind), &format!("import | export changed the value at {}", what), replay);
+        }
+        // the saved document, read back by the library, exports the same value (C32 on CLI-made documents)
+        if let Ok(doc) = Automerge::load(&bytes) {
+            if let Ok(Ok(v)) = guard(|| serde_json::to_value(automerge::AutoSerde::from(&doc))) {
+                if !json_same(&v, &back) {
+                    rep.fail(&["C33", "C32"], "recon|cli|library-export-differs", "the library's AutoSerde export of the imported document differs from `automerge export`", json!({"program": pi, "json": text}));
+                }
+            }
+        }
+        fn depth(v: &serde_json::Value) -> usize {
+            match v {
+                serde_json::Value::Array(a) => 1 + a.iter().map(depth).max().unwrap_or(0),
+                serde_json::Value::Object(o) => 1 + o.values().map(depth).max().unwrap_or(0),
+                _ => 0,
+            }
+        }
+        rep.case(if depth(&j) >= 2 { Some(fnv(text.as_bytes())) } else { None });
+        if pi < 1 {
+            rep.sample(json!({"stream": "cli", "json": text.chars().take(300).collect::<String>()}));
+        }
+    }
+}
+
 // ------------------------------------------------------------------ entry
 pub fn run(rng: &mut Rng, tier: &str, out: &str) -> Report {
     let thorough = tier == "thorough";
@@ -1447,6 +2002,25 @@ pub fn run(rng: &mut Rng, tier: &str, out: &str) -> Report {
             bulk_case(&mut r, &mut rep, pi, encs[pi % 4], thorough);
             upd_spans_case(&mut r, &mut rep, pi, encs[pi % 4]);
         }
+    }
+    // ---- C32
+    {
+        let mut r = rng.fork();
+        let n = if thorough { 300 } else { 60 };
+        let mut grp = Group::new(if thorough { 10 } else { 6 });
+        let nmodel = if thorough { 120 } else { 24 };
+        for pi in 0..n {
+            serde_case(&mut r, &mut rep, &mut cw, &mut grp, pi < nmodel, pi, encs[pi % 4], thorough);
+        }
+        grp.flush(&mut cw);
+        let (some, none) = tser::ANNOUNCED.with(|a| *a.borrow());
+        rep.add("serde:containers_announcing_a_length", some);
+        rep.add("serde:containers_without_length", none);
+    }
+    // ---- C33
+    {
+        let mut r = rng.fork();
+        cli_stream(&mut r, &mut rep, thorough);
     }
     cw.finish();
     rep
